@@ -48,9 +48,15 @@ class C01(Campaign):
         vals = sorted(c for c, m in prog["cbs"].items() if m["group"] == "validators")
         n = len(sc["ops"])
         if vals and rnd.random() < 0.6:
+            used_eps = set()
             for _ in range(rnd.randint(1, 2)):
                 c = rnd.choice(vals)
                 ep = rnd.randrange(1, n)
+                if ep in used_eps:
+                    # two validators of one candidate failing in the same event: which exception wins
+                    # depends on the (unspecified) order inside the group
+                    continue
+                used_eps.add(ep)
                 full = f"{prog['name']}/{c}"
                 sc["beh"].setdefault(full, []).insert(
                     0, {"ep": ep, "raise": rnd.choice(["SimLookup", "SimValue", "SimFault"])})
